@@ -838,6 +838,25 @@ def r_nullable_nullable(m, rnd):
             yield ctx + '+via_alias', apply
 
 
+@rule('nullable_of_nullable_via_alias_chain')
+def r_nullable_chain(m, rnd):
+    """`Outer?` where Outer = Inner and Inner = String? (or Void), with Outer defined
+    before the reference and Inner after it: nothing about the order makes it legal."""
+    for ni, ns in enumerate(m.namespaces):
+        for inner_t, label in ((prim('String', nullable=True), 'nullable'), (prim('Void'), 'void')):
+            for order in ('outer_ref_inner', 'inner_outer_ref', 'ref_outer_inner'):
+                def apply(m2, ni=ni, inner_t=inner_t, order=order):
+                    nsd = m2.namespaces[ni]
+                    inner = AliasDef(name='ChainInner999', ns=nsd.name, doc=None, type=inner_t, anns=[])
+                    outer = AliasDef(name='ChainOuter999', ns=nsd.name, doc=None,
+                                     type=ref(nsd.name, 'ChainInner999'), anns=[])
+                    use = AliasDef(name='ChainRef999', ns=nsd.name, doc=None,
+                                   type=ref(nsd.name, 'ChainOuter999', nullable=True), anns=[])
+                    by = {'outer': outer, 'ref': use, 'inner': inner}
+                    nsd.defs.extend(by[k] for k in order.split('_'))
+                yield label + '+' + order, apply
+
+
 @rule('default_on_nullable')
 def r_default_nullable(m, rnd):
     for fpath, d, f in fields_of(m, ('struct',)):
@@ -1401,7 +1420,8 @@ def r_attr_wrong(m, rnd):
     for path, d in defs(m, ('route',)):
         for f in m.cfg_fields:
             if f.type.kind == 'prim' and f.type.name != 'Bytes':
-                bad = {'String': ('lit', 5), 'Boolean': ('lit', 'yes')}.get(f.type.name, ('lit', 'text'))
+                bad = {'String': ('lit', 5), 'Boolean': ('lit', 'yes'), 'Timestamp': ('lit', 5)}.get(
+                    f.type.name, ('lit', 'text'))
             elif f.type.kind == 'ref':
                 bad = ('lit', 5)
             else:
